@@ -13,7 +13,8 @@ EXPLANATION = (
     'effects returned by the core flow through register, one call per effect with no adaptor, into the vector that is serialised, and no '
     'effect or request is dropped except the serialised batch; R09.d in every generated `impl Effect` (derive and attribute macro, '
     'expanded from the current tree in the probe crate) arm i of serialize passes the constructor of the same-named Ffi variant, and '
-    'From<Request<Op>> builds the variant whose payload is Op. Byte-level equality with the typed core for every history is not decided '
+    'From<Request<Op>> builds the variant whose payload is Op; R09.e a registry entry changes state only when a one-shot is consumed — a stream '
+    'entry never does, so its id stays bound while it can be resolved. Byte-level equality with the typed core for every history is not decided '
     '(C02 R02.b and C10 R10.d cover arity and codec).')
 
 
@@ -111,6 +112,25 @@ def check(ctx, rep):
     rep.expect('R09.b', ok, 'resume|remove-when-unresolvable',
                'an entry is removed only on the Never edge of a test made after resolve() (or as a one-shot being consumed)',
                'ResolveRegistry::resume removes an entry that may still be resolvable (a Many entry, or before the Never test)')
+    # R09.e: an id stays bound to its request for as long as the request can be resolved: the entry's state only changes
+    # by a one-shot being consumed (shared with C02 R02.a, serialised resolver only)
+    rep.rule('R09.e', 'a registry entry changes state only when a one-shot is consumed; a stream entry never changes state', floor=3)
+    from rules.props import c02
+    fs = c02.find_method(core, 'crux_core::bridge::request_serde::ResolveSerialized', 'resolve')
+    if len(fs) != 1:
+        rep.missing('R09.e', 'ResolveSerialized::resolve')
+    else:
+        tab = c02.arity_table(core, fs[0], 'crux_core::bridge::request_serde::ResolveSerialized')
+        if not tab or set(tab) != {'Never', 'Once', 'Many'}:
+            rep.bad('R09.e', 'table', 'ResolveSerialized::resolve is no longer a match on the three arities')
+        else:
+            rep.expect('R09.e', not tab['Many']['writes_self'], 'Many-keeps-state', 'the Many arm never writes *self',
+                       'ResolveSerialized::resolve changes the state of a stream entry: resume() then frees a live stream\'s id, the slab hands '
+                       'it to the next request, and later responses under that id resume the wrong request')
+            rep.expect('R09.e', tab['Once']['writes_never_before_call'] and tab['Once']['closure_is_taken_payload'], 'Once-consumed',
+                       'the Once arm becomes Never exactly by taking its closure out', 'the Once arm of ResolveSerialized::resolve no longer consumes the entry')
+            rep.expect('R09.e', not tab['Never']['writes_self'] and tab['Never']['closure_calls'] == 0, 'Never-stays', 'the Never arm changes nothing',
+                       'the Never arm of ResolveSerialized::resolve writes or calls something')
     # R09.c
     bp = c06.method(core, 'crux_core::bridge::BridgeWithSerializer', 'process')
     if bp is None:
